@@ -173,3 +173,101 @@ def condensed_ordered(n, values, out):
     pos = n * row - (row * (row + 1)) / 2 + (col - row - 1)
     out[pos.astype(int)] = values
     return out
+
+
+# ---- LOOP-CARRY
+def carried_selection(datasets, noise, work):
+    out = []
+    for i, ds in enumerate(datasets):
+        if not isinstance(noise, float):
+            noise = noise[i]
+        out.append(work(ds, noise))
+    return out
+
+
+def carried_counter_only(datasets, work):
+    out = []
+    k = 0
+    total = 0.0
+    for ds in datasets:
+        out.append(work(ds, k))
+        k = k + 1
+        total = total + ds.sum()
+    return out, total
+
+
+# ---- LOOP-SHADOW
+def shadowed_collection(folds, models, fitters, fit):
+    res = []
+    for fold in folds:
+        for model, fitters in zip(models, fitters):
+            res.append(fit(fitters, model, fold))
+    return res
+
+
+def fresh_names(folds, models, fitters, fit):
+    res = []
+    for fold in folds:
+        for model, fitter in zip(models, fitters):
+            res.append(fit(fitter, model, fold))
+    return res
+
+
+# ---- RUNLEN
+def runs_without_closing_sentinel(x):
+    change = x[1:] != x[:-1]
+    starts = np.flatnonzero(np.r_[True, change])
+    return np.diff(starts)
+
+
+def runs_with_both_sentinels(x):
+    obs = np.r_[True, x[1:] != x[:-1], True]
+    return np.diff(np.nonzero(obs)[0])
+
+
+# ---- HALF-FILLED
+def half_filled_unordered(n, labels, all_labels, values, out):
+    position = np.zeros((n, n), dtype=int)
+    position[np.triu_indices(n, 1)] = np.arange(n * (n - 1) // 2)
+    pidx = [all_labels.index(x) for x in labels]
+    target = position[np.ix_(pidx, pidx)][np.triu_indices(len(pidx), 1)]
+    out[target] = values
+    return out
+
+
+def half_filled_sorted(n, mask, values, out):
+    position = np.zeros((n, n), dtype=int)
+    position[np.triu_indices(n, 1)] = np.arange(n * (n - 1) // 2)
+    keep = np.flatnonzero(mask)
+    target = position[np.ix_(keep, keep)][np.triu_indices(len(keep), 1)]
+    out[target] = values
+    return out
+
+
+# ---- MASK-WEIGHT
+def group_means_by_weights(x, inverse, n_groups):
+    member = inverse[np.newaxis, :] == np.arange(n_groups)[:, np.newaxis]
+    counts = member.sum(axis=1)
+    return (member.astype(float) @ x) / counts[:, np.newaxis]
+
+
+def group_means_by_selection(x, inverse, n_groups):
+    out = np.empty((n_groups, x.shape[1]))
+    for k in range(n_groups):
+        out[k] = x[inverse == k].mean(axis=0)
+    return out
+
+
+# ---- TRI
+def ldl_factor_as_triangular(E, b):
+    import scipy.linalg as sl
+    L_E, D_E, _ = sl.ldl(E)
+    D_E = np.sqrt(D_E)
+    E_chol = L_E @ D_E
+    return sl.solve_triangular(E_chol, b, lower=True)
+
+
+def cholesky_factor_as_triangular(E, b):
+    import scipy.linalg as sl
+    c = np.linalg.cholesky(E)
+    return sl.solve_triangular(c, b, lower=True)
